@@ -242,6 +242,12 @@ func (s *State) generateInternalState() (*dtlsstate.State, error) {
 	if s.version.Equal(protocol.Version1_3) {
 		return nil, ErrStateSerializationUnsupported
 	}
+	if s.localEpoch == 0 || len(s.masterSecret) == 0 {
+		// A state captured before the handshake switched to its keys (the one
+		// handed to VerifyConnection, for instance) has nothing to resume:
+		// the connection would send application data in epoch 0.
+		return nil, dtlserrors.ErrHandshakeInProgress
+	}
 
 	state := &dtlsstate.State{
 		Common: &dtlsstate.Common{
